@@ -100,6 +100,29 @@ func c17Case(t *rapid.T, extreme bool) {
 		if err != nil {
 			t.Fatalf("C17: %v", err)
 		}
+		// mappings as decoders rebuild them: same base, an arbitrary (possibly very large) index offset; the index of a
+		// value is then only known to within ulp(offset) bins, in either direction
+		bigOffsets := []float64{1e6, -1e6 - 0.25, 1e9, -1e9, 1.5e9, 1<<30 + 0.5, -1.5e9}
+		if rel != "aligned" && rel != "equal" && !extreme {
+			if rapid.IntRange(0, 3).Draw(t, "srcoffset") == 0 {
+				s1 = gen.MapSpec{Kind: k1, Gamma: g1, Offset: rapid.SampledFrom(bigOffsets).Draw(t, "o1"), Nominal: a1}
+				if mm, err := s1.Build(); err == nil && mm.MinIndexableValue() < 1e-6 && mm.MaxIndexableValue() > 1e6 {
+					m1 = mm
+					cl.label("source-offset:large")
+				} else {
+					s1 = gen.MapSpec{Kind: k1, FromAlpha: true, Alpha: a1, Nominal: a1}
+				}
+				g1, o1 = gen.GammaOf(m1)
+			}
+			if rapid.IntRange(0, 2).Draw(t, "tgtoffset") == 0 {
+				g2, _ := gen.GammaOf(m2)
+				sp := gen.MapSpec{Kind: gen.KindOf(m2), Gamma: g2, Offset: rapid.SampledFrom(bigOffsets).Draw(t, "o2")}
+				if mm, err := sp.Build(); err == nil && mm.MinIndexableValue() < 1e-9 && mm.MaxIndexableValue() > 1e9 {
+					s2, m2 = sp, mm
+					cl.label("target-offset:large")
+				}
+			}
+		}
 		if rel != "aligned" {
 			switch rapid.IntRange(0, 4).Draw(t, "scaleclass") {
 			case 0:
